@@ -154,6 +154,37 @@ int main() {
                 bool ok = sparse::is_transpose_pattern<Q, int>(A, C);
                 std::cout << "istp " << (ok ? 1 : 0) << "\n";
             }
+            else if (c == "csc.ldl") {
+                // storage level: every array of the sparse LDLt object after the symbolic and numeric phases, and one solve
+                RawS a = raw(t);
+                long n = a.r;
+                DVec b = t.vec(n);
+                SMat A = sparse_of(a, true);
+                sparse::LDLt<Q, int> f;
+                f.factorize_symbolic_upper_triangular(A);
+                std::cout << "etree"; for (long i = 0; i < n; i++) std::cout << " " << f.etree[i];
+                std::cout << "\nlcols"; for (long i = 0; i <= n; i++) std::cout << " " << f.L_cols[i];
+                std::cout << "\nlnnz0"; for (long i = 0; i < n; i++) std::cout << " " << f.L_nnz[i];
+                isize ret = f.factorize_numeric_upper_triangular(A);
+                std::cout << "\nret " << ret;
+                if (ret == n) {
+                    std::cout << "\nlnnz"; for (long i = 0; i < n; i++) std::cout << " " << f.L_nnz[i];
+                    std::cout << "\nlfill";
+                    for (long j = 0; j < n; j++) { std::ostringstream col; for (isize p = f.L_cols[j]; p < f.L_cols[j] + f.L_nnz[j]; p++) { col << (p > f.L_cols[j] ? " " : "") << f.L_ind[p] << ":" << f.L_vals[p].str(); } std::cout << " " << col.str(); }
+                }
+                std::cout << "\ndd"; for (long i = 0; i < (ret < n ? ret + 1 : n); i++) std::cout << " " << f.D[i].str();
+                std::cout << "\n";
+                if (ret == n) {
+                    DVec x = b; f.solve_inplace(x); std::cout << "xs " << vstr(x) << "\n";
+                    // certificate for ldlt_unique, computed from the C++ arrays: unit lower L, zero-free D, L D L' == A exactly
+                    DMat Ld = DMat::Constant(n, n, Q(0)); bool lower = true, dnz = true;
+                    for (long j = 0; j < n; j++) { Ld(j, j) = Q(1); for (isize p = f.L_cols[j]; p < f.L_cols[j] + f.L_nnz[j]; p++) { if (f.L_ind[p] <= j) lower = false; Ld(f.L_ind[p], j) = f.L_vals[p]; } }
+                    for (long k = 0; k < n; k++) if (f.D[k] == Q(0)) dnz = false;
+                    DMat Ad = dense_of(A); bool prod = true;
+                    for (long i = 0; i < n; i++) for (long j = 0; j < n; j++) { Q acc(0); for (long k = 0; k < n; k++) acc = acc + Ld(i, k) * f.D[k] * Ld(j, k); Q aij = (i <= j) ? Ad(i, j) : Ad(j, i); if (!(acc == aij)) prod = false; }
+                    std::cout << "ldlcert " << ((prod && lower && dnz) ? 1 : 0) << "\n";
+                }
+            }
             else if (c == "ord.amd") {
                 RawS a = raw(t);
                 SMat A = sparse_of(a, true);
